@@ -1264,6 +1264,84 @@ fn mode_pauses(j: &mut Judge) {
     }
 }
 
+/// A flush through the queuing sink made by the queue's OWN thread - from its error handler, the one place where user code
+/// runs there ("on error, push out what we have"): when it returns Ok, everything the buffered sink accepted so far is on
+/// the wire, as for a flush from any other thread (C06).
+fn handler_flush_case(j: &mut Judge, cs: u64) {
+    use std::sync::Mutex;
+    struct Refuser {
+        inner: BufferedSpyMetricSink,
+        accepted: Arc<Mutex<Vec<u8>>>,
+    }
+    impl MetricSink for Refuser {
+        fn emit(&self, m: &str) -> io::Result<usize> {
+            if m.contains("refuseme") {
+                return Err(io::Error::new(io::ErrorKind::InvalidData, "refused by the wrapper"));
+            }
+            let r = self.inner.emit(m);
+            if r.is_ok() {
+                let mut a = self.accepted.lock().unwrap_or_else(|e| e.into_inner());
+                a.extend_from_slice(m.as_bytes());
+                a.push(b'\n');
+            }
+            r
+        }
+        fn flush(&self) -> io::Result<()> {
+            self.inner.flush()
+        }
+    }
+    let mut r = Rng::new(cs);
+    let cap = r.range(40, 400) as usize;
+    let (rx, spy) = BufferedSpyMetricSink::with_capacity(None, Some(cap));
+    let accepted = Arc::new(Mutex::new(Vec::<u8>::new()));
+    let wire = Arc::new(Mutex::new(Vec::<u8>::new()));
+    let bad: Arc<Mutex<Option<String>>> = Arc::new(Mutex::new(None));
+    let flushes = Arc::new(AtomicU64::new(0));
+    let slot: Arc<Mutex<Option<QueuingMetricSink>>> = Arc::new(Mutex::new(None));
+    let (slot2, rx2, acc2, wire2, bad2, fl2) = (std::panic::AssertUnwindSafe(slot.clone()), std::panic::AssertUnwindSafe(rx.clone()), std::panic::AssertUnwindSafe(accepted.clone()), std::panic::AssertUnwindSafe(wire.clone()), std::panic::AssertUnwindSafe(bad.clone()), flushes.clone());
+    let q = QueuingMetricSink::builder()
+        .with_error_handler(move |_e| {
+            let q = slot2.lock().unwrap_or_else(|e| e.into_inner()).clone();
+            if let Some(q) = q {
+                let res = q.flush();
+                fl2.fetch_add(1, Ordering::SeqCst);
+                let mut w = wire2.lock().unwrap_or_else(|e| e.into_inner());
+                while let Ok(b) = rx2.try_recv() {
+                    w.extend_from_slice(&b);
+                }
+                let a = acc2.lock().unwrap_or_else(|e| e.into_inner());
+                if res.is_ok() && *w != *a {
+                    let mut b = bad2.lock().unwrap_or_else(|e| e.into_inner());
+                    if b.is_none() {
+                        *b = Some(format!("flush() called from the queue's error handler returned Ok; the buffered sink had accepted {} bytes of lines, {} bytes are on the wire", a.len(), w.len()));
+                    }
+                }
+            }
+        })
+        .build(Refuser { inner: spy, accepted: accepted.clone() });
+    *slot.lock().unwrap() = Some(q.clone());
+    let n = r.range(6, 30);
+    for k in 0..n {
+        let m = if r.chance(1, 4) { format!("refuseme{}:1|c", k) } else { format!("hf{}.k{}:{}|g", cs % 1000, k, r.below(100000)) };
+        let _ = q.emit(&m);
+    }
+    let _ = q.emit("refuseme.last:1|c");
+    let t0 = std::time::Instant::now();
+    while q.queued() > 0 && t0.elapsed().as_secs() < 20 {
+        std::thread::sleep(std::time::Duration::from_millis(1));
+    }
+    std::thread::sleep(std::time::Duration::from_millis(3));
+    *slot.lock().unwrap() = None;
+    drop(q);
+    j.rep.eval();
+    j.rep.obs("flushes_made_by_the_queues_own_thread_from_its_error_handler", flushes.load(Ordering::SeqCst));
+    j.rep.distinct(&format!("W5-handler-flush|{}", cap / 100));
+    let b = bad.lock().unwrap_or_else(|e| e.into_inner()).clone();
+    if let (Some(b), true) = (b, j.prop == "C06") {
+        j.rep.violation(Violation { property: "C06".into(), rule: "F2".into(), class: "flush-left-data".into(), detail: format!("[W5-handler-flush cap={}] {}", cap, b), replay_args: j.args.to_vec_with(&[("case-seed", cs.to_string()), ("cases", "1".into())]), trace: Json::Null });
+    }
+}
+
 fn mode_delegate(j: &mut Judge) {
     use cadence::prelude::*;
     use cadence::Metric;
@@ -1273,6 +1351,9 @@ fn mode_delegate(j: &mut Judge) {
     let only = j.args.get("case-seed").map(|s| s.parse::<u64>().unwrap());
     for i in 0..cases {
         let cs = only.unwrap_or_else(|| mix(&[seed, 0xDE1, shard, i]));
+        if i % 8 == 0 && only.is_none() {
+            handler_flush_case(j, cs ^ 0x4F);
+        }
         let mut r = Rng::new(cs);
         let default_cap = r.chance(1, 3);
         let cap = if default_cap { 512 } else { r.range(8, 120) as usize };
